@@ -1,6 +1,8 @@
 """insertion sweeps: a pause (+ resume after rest) or a cancel inserted at *every* position of a base history"""
 import importlib
 
+from ovf.props.common import positions
+
 from ovf import workloads
 from ovf.sim import explore
 from ovf.sim.provider import h64
@@ -34,7 +36,7 @@ def ctl_sweep(job):
             if mode == "pause_resume_pause":
                 # three requests in a row while actions are in flight: pause, resume before anything reports (the workflow
                 # is then `resuming` with actions in flight), pause again
-                for pos in range(1, len(base) + 1):
+                for pos in positions(base):
                     for variant in range(4):
                         k += 1
                         if only and k != only[1]:
@@ -57,7 +59,7 @@ def ctl_sweep(job):
             if mode == "pause_then_cancel":
                 # two different requests in one history: pause at every position, then cancel after 0, 1 or 2 further
                 # reports (a with-items task may by then rest `paused` between items while other actions still run)
-                for pos in range(1, len(base) + 1):
+                for pos in positions(base):
                     for gap in range(3):
                         k += 1
                         if only and k != only[1]:
@@ -80,7 +82,7 @@ def ctl_sweep(job):
                         workloads.collect(out, job, run, m, (seed, k), nontriv_fn,
                                           extra=dict(insert=dict(mode=mode, pos=pos, gap=gap)))
                 continue
-            for pos in range(1, len(base) + 1):
+            for pos in positions(base):
                 for variant in range(3):
                     k += 1
                     if only and k != only[1]:
